@@ -34,6 +34,9 @@ main_fns! {
     F32: f32, F64: f64, Str: RotoString,
     OptI64: Option<i64>, OptTrk: Option<Val<Trk>>, TrkV: Val<Trk>,
     VerdI64: Verdict<i64, i64>,
+    VerdUU: Verdict<(), ()>,
+    VerdIU: Verdict<i64, ()>,
+    VerdUI: Verdict<(), i64>,
 }
 
 pub fn get_main(pkg: &mut Package<NoCtx>, name: &str, ret: &Ty) -> Result<MainFn, String> {
@@ -63,6 +66,9 @@ pub fn get_main(pkg: &mut Package<NoCtx>, name: &str, ret: &Ty) -> Result<MainFn
         Ty::Verdict(a, r) if **a == Ty::Int(IntTy::I64) && **r == Ty::Int(IntTy::I64) => {
             g!(VerdI64, Verdict<i64, i64>)
         }
+        Ty::Verdict(a, r) if **a == Ty::Unit && **r == Ty::Unit => g!(VerdUU, Verdict<(), ()>),
+        Ty::Verdict(a, r) if **a == Ty::Int(IntTy::I64) && **r == Ty::Unit => g!(VerdIU, Verdict<i64, ()>),
+        Ty::Verdict(a, r) if **a == Ty::Unit && **r == Ty::Int(IntTy::I64) => g!(VerdUI, Verdict<(), i64>),
         t => Err(format!("harness: no monomorphised main for return type {t:?}")),
     }
 }
@@ -116,6 +122,27 @@ impl MainFn {
                 let r = f.call();
                 exempt(move || match r {
                     Verdict::Accept(x) => V::Enum(0, "Accept".into(), vec![V::Int(IntTy::I64, x as i128)]),
+                    Verdict::Reject(x) => V::Enum(1, "Reject".into(), vec![V::Int(IntTy::I64, x as i128)]),
+                })
+            }
+            MainFn::VerdUU(f) => {
+                let r = f.call();
+                exempt(move || match r {
+                    Verdict::Accept(()) => V::Enum(0, "Accept".into(), vec![V::Unit]),
+                    Verdict::Reject(()) => V::Enum(1, "Reject".into(), vec![V::Unit]),
+                })
+            }
+            MainFn::VerdIU(f) => {
+                let r = f.call();
+                exempt(move || match r {
+                    Verdict::Accept(x) => V::Enum(0, "Accept".into(), vec![V::Int(IntTy::I64, x as i128)]),
+                    Verdict::Reject(()) => V::Enum(1, "Reject".into(), vec![V::Unit]),
+                })
+            }
+            MainFn::VerdUI(f) => {
+                let r = f.call();
+                exempt(move || match r {
+                    Verdict::Accept(()) => V::Enum(0, "Accept".into(), vec![V::Unit]),
                     Verdict::Reject(x) => V::Enum(1, "Reject".into(), vec![V::Int(IntTy::I64, x as i128)]),
                 })
             }
